@@ -366,6 +366,9 @@ func (e *Exec) initChain() bool {
 		gt = 1700000000
 	}
 	e.Now = time.Unix(gt, 0).UTC()
+	if e.S.Config.Genesis.ZeroTime {
+		e.Now = time.Time{}
+	}
 	var genBytes []byte
 	for i, c := range cfgs {
 		n := NewNode(i, e.Env, c, e.Scratch)
@@ -414,8 +417,10 @@ func (e *Exec) produceBlock(st *Step) {
 	if dt <= 0 {
 		dt = int64(5 * time.Second)
 	}
-	e.Now = e.Now.Add(time.Duration(dt))
-	e.simTime += time.Duration(dt)
+	if !e.S.Config.Genesis.ZeroTime {
+		e.Now = e.Now.Add(time.Duration(dt))
+		e.simTime += time.Duration(dt)
+	}
 	blk := &Block{Height: h, Time: e.Now}
 	rec := &BlockRec{B: blk}
 	r0 := e.R[0]
@@ -444,11 +449,16 @@ func (e *Exec) produceBlock(st *Step) {
 		e.resync(r0.DeliverStores())
 	}
 
+	r0rng := Keyed(e.S.Seed, "mid-r0", uint64(h))
 	for _, p := range e.dueTxs(h, st.Take) {
 		if e.stop {
 			return
 		}
 		e.deliverOnR0(p, blk, rec)
+		if !e.stop && e.S.Config.MidBlockRate > 0 && r0rng.Chance(e.S.Config.MidBlockRate) {
+			// simulated query / CheckTx / Simulate tasks scheduled between two DeliverTx calls of the reference replica
+			e.midBlockTasks(r0.Node, h, len(rec.TxIDs), applyOpts{Tag: "reference replica", HistoryOK: true}, r0rng)
+		}
 	}
 	if e.stop {
 		return
